@@ -222,9 +222,11 @@ class IndexedCache:
         :rtype: None
         """
         # Make a shallow copy only for seen_set tracking to avoid mutating caller's dict
-        if not index or not assignment:
+        if not index:
             self.flat_cache.add(output)
             return
+        # an assignment that binds none of the keys is stored under wildcards on all levels like any other partial
+        # assignment, so that retrieve() finds it (the coverage check considers it as covering every lookup).
 
         seen_assignment = dict(assignment)
         self.seen_set.add(seen_assignment)
